@@ -10,6 +10,7 @@ import Passage.Driver.C19
 import Passage.Driver.C20
 import Passage.Driver.Listener
 import Passage.Driver.C03
+import Passage.Driver.C10Json
 import Passage.Crypto.SelfTest
 /-
   passage-model: reads one request per line on stdin, prints one answer per line.
@@ -18,7 +19,7 @@ import Passage.Crypto.SelfTest
 open Passage.Driver
 
 def handlers : List (List String → Option String) :=
-  [C11.handle, C09.handle, C13.handle, C18.handle, C05.handle, Conn.handle, C12.handle, C19.handle, C20.handle, Listener.handle, C03.handle]
+  [C11.handle, C09.handle, C13.handle, C18.handle, C05.handle, Conn.handle, C12.handle, C19.handle, C20.handle, Listener.handle, C03.handle, C10Json.handle]
 
 def dispatch (toks : List String) : String :=
   match handlers.findSome? (fun h => h toks) with
